@@ -83,7 +83,8 @@
       NO pinned statement above changed textually ([conforms] is referenced by name; all were
       re-proved: [C14_conforms] via [C14_model_copy_is_copy]).  New at the end of this file:
       [C14_model_copy_is_copy], [C14_repeat_needs_copy], [C14_repeat_needs_copy_tokens],
-      [C14_repeat_examples], [C14_copy_tyb_iff], [C14_copy_ty_fuel].
+      [C14_repeat_examples], [C14_copy_tyb_iff], [C14_copy_ty_fuel], [C14_reader_repeat_needs_copy],
+      [C14_reader_refuses_repeat].
 
     Determinism: [example_rust] is a Gallina function of (r, s, id, ws). *)
 From Coq Require Import List NArith ZArith String.
@@ -93,7 +94,7 @@ From V Require Import Base.Result Model.Registry Model.Settings Model.RngWords M
   Proofs.ConformsExamples.
 (* [Require] without [Import]: the names of the pinned statements above keep their meaning; the
    statements added at the end of this file use qualified names *)
-From V Require Proofs.CopyTy.
+From V Require Proofs.CopyTy Proofs.ConformsRepeat.
 From V Require Model.Emit Checkers.Parse Model.Unparse Corr.RunTG Corr.RunC14
   Proofs.ConformsTokens Proofs.ConformsTokensExamples Proofs.ConformsCase.
 Import ListNotations.
@@ -571,3 +572,27 @@ Theorem C14_copy_ty_fuel :
   forall (r : registry) (n : nat) (id : N), copy_ty r n id = true -> copy_tyb r id = true.
 Proof. exact CopyTy.copy_ty_fuel. Qed.
 Print Assumptions C14_copy_ty_fuel.
+
+(** ** the INDEPENDENT token reader refuses the repeat form for a non-[Copy] element type -- universally
+    (every registry, root, parsed module, path list, fuel; no scope hypothesis): whenever
+    [RunC14.conf] accepts a token list for an array entry with >= 2 elements whose element type is not
+    [copy_tyb], the list starts with [[], and the first element the reader reads is followed by a
+    COMMA; if the first element is followed by [;] the reader returns [None]. *)
+Theorem C14_reader_repeat_needs_copy :
+  forall (r : registry) (root : String.string) (pm : option Parse.pmod) (paths : list (RunTG.obs tokens))
+         (fuel : nat) (id : N) (t : ty) (len e : N) (ts rest : tokens),
+    lookup r id = Some t -> t_def t = TDArray len e -> (2 <= len)%N -> copy_tyb r e = false ->
+    RunC14.conf r root pm paths (S fuel) id ts = Some rest ->
+    exists ts1 r3 : tokens,
+      ts = "["%string :: ts1 /\ RunC14.conf r root pm paths fuel e ts1 = Some (","%string :: r3).
+Proof. exact ConformsRepeat.reader_repeat_needs_copy. Qed.
+Print Assumptions C14_reader_repeat_needs_copy.
+
+Theorem C14_reader_refuses_repeat :
+  forall (r : registry) (root : String.string) (pm : option Parse.pmod) (paths : list (RunTG.obs tokens))
+         (fuel : nat) (id : N) (t : ty) (len e : N) (ts1 x : tokens),
+    lookup r id = Some t -> t_def t = TDArray len e -> (2 <= len)%N -> copy_tyb r e = false ->
+    RunC14.conf r root pm paths fuel e ts1 = Some (";"%string :: x) ->
+    RunC14.conf r root pm paths (S fuel) id ("["%string :: ts1) = None.
+Proof. exact ConformsRepeat.reader_refuses_repeat. Qed.
+Print Assumptions C14_reader_refuses_repeat.
